@@ -157,6 +157,8 @@ type sim struct {
 	victim    *task
 	pctPoints []int
 
+	spinFails int // consecutive failed cooperative lock attempts since the last real progress
+
 	tooMany bool
 	panics  [16]PanicInfo
 	npanics int
@@ -313,6 +315,11 @@ func (s *sim) park(t *task, site int, what int) {
 	t.state = stParked
 	t.site = site
 	t.what = what
+	if what == 1 {
+		s.spinFails++
+	} else {
+		s.spinFails = 0
+	}
 	s.insertParked(t)
 	s.mu.Unlock()
 	select {
@@ -461,6 +468,16 @@ func NumCPU() int {
 //go:norace
 func (s *sim) pick() int {
 	return s.choose(s.nparked, nil)
+}
+
+//go:norace
+func (s *sim) allSpinning() bool {
+	for i := 0; i < s.nparked; i++ {
+		if s.parked[i].what != 1 {
+			return false
+		}
+	}
+	return s.nparked > 0
 }
 
 //go:norace
@@ -637,6 +654,13 @@ func Run(cfg Config, wait func(), root func()) *Report {
 			rep.StepCap = true
 			break
 		}
+		// Cooperative locks: if every runnable task is spinning on a lock and each has
+		// failed repeatedly with no real progress in between, no holder can ever
+		// release: a lock deadlock (lock-order inversion, lock held while blocked).
+		if s.spinFails > 3*s.nparked+8 && s.allSpinning() {
+			rep.Deadlock = true
+			break
+		}
 		if s.tooMany {
 			break
 		}
@@ -678,6 +702,9 @@ func Run(cfg Config, wait func(), root func()) *Report {
 			what := "blocked in " + opNames[t.lastK]
 			if t.state == stParked {
 				what = "runnable (parked)"
+				if t.what == 1 {
+					what = "spinning on a lock held by another blocked task"
+				}
 			}
 			rep.Blocked = append(rep.Blocked, BlockedInfo{Task: t.id, Site: SiteName(t.lastOp), What: what})
 		}
